@@ -445,6 +445,15 @@ impl Run {
             load_raw(&mut run.w, &p, &f["raw"]);
             run.w.set_clock(n(&f["now"], "h"), n(&f["now"], "t"));
             cfgv["expect"] = f["obs"].clone();
+            // a deployed contract gets new code through `migrate` (cw1-subkeys has one): the state is compared after it
+            if flavour == "subkeys" {
+                let creator = run.w.addr("creator");
+                let code = run.w.app.store_code(proxy_code(&flavour));
+                let r = call(&mut run.w, |w| w.app.migrate_contract(creator, p.clone(), &Empty {}, code));
+                if !r.ok {
+                    run.sc.anomalies.borrow_mut().push(format!("the upgrade of a deployment of the release was refused: {}", r.err));
+                }
+            }
         }
         let obs = run.observe();
         let anom = run.sc.take_anomalies();
@@ -755,6 +764,9 @@ pub fn make_fixtures(rng: &mut Rng, count: usize, len: usize, path: &str) {
     let mut k = 0;
     while k < count {
         let mut cfg = rand_cfg(rng);
+        // only cw1-subkeys can be upgraded in place (it has a `migrate` entry point; a deployed cw1-whitelist never
+        // runs newer code, so its storage layout is nobody's business)
+        cfg["flavour"] = json!("subkeys");
         cfg["ver"] = json!("cur");
         cfg["oldadmin"] = json!(false);
         let Some(mut run) = Run::start(&cfg, k as u64, &mut sink) else { continue };
